@@ -347,7 +347,11 @@ def _locate_droplets_in_mask_cylindrical(mask: ScalarField) -> Emulsion:
         return droplets
 
     # simply locate droplets in the mask
-    return _locate_droplets_in_mask_cylindrical_single(mask.grid, mask.data)
+    droplets = _locate_droplets_in_mask_cylindrical_single(mask.grid, mask.data)
+
+    # filter overlapping droplets, like for all other grids
+    droplets.remove_overlapping()
+    return droplets
 
 
 def locate_droplets_in_mask(mask: ScalarField) -> Emulsion:
